@@ -17,6 +17,8 @@ pub enum Case {
     Hmac { seed: u64, klen: usize, dlen: usize },
     Sha { seed: u64, len: usize },
     Nonce { seed: u64, counter: u64 },
+    /// One message at the 2^31-byte line (lengths that no longer fit a signed 32-bit integer): open inverts seal, a flipped bit is refused.
+    HugeAead { len: u64 },
     /// A history over a table of PrivateKey objects, compared step by step with the scalars a model holds.
     KeyObjects { ops: Vec<KOp> },
 }
@@ -113,6 +115,20 @@ pub fn check(c: &Case) -> CheckResult {
             ensure!(kc::sha256(&d)[..] == kspec::sha256(&d)[..], "sha256 differs from FIPS 180-4 for {} bytes", len);
             ok(![0, 3, 56].contains(len), "sha256")
         }
+        Case::HugeAead { len } => {
+            let avail = std::fs::read_to_string("/proc/meminfo").ok().and_then(|t| t.lines().find_map(|l| l.strip_prefix("MemAvailable:").and_then(|v| v.trim().trim_end_matches("kB").trim().parse::<u64>().ok()))).unwrap_or(0);
+            if avail < (*len / 1024) * 4 + (2 << 20) { return ok(false, "aead/huge/skipped-memory"); }
+            let key = gen::key32(*len, "huge"); let nonce = [7u8; 12]; let aad = b"huge";
+            let mut m = vec![0u8; *len as usize]; gen::fill_at(9, 0, &mut m[..4096]); let l = m.len(); gen::fill_at(11, 0, &mut m[l - 4096..]);
+            let mut ct = kc::chapoly_encrypt_ietf(&key, &nonce, &m, aad);
+            ensure!(ct.len() == m.len() + 16, "seal of {} bytes returned {} bytes", m.len(), ct.len());
+            // the tag is checked against the independent implementation's Poly1305 only for the first and last 4 KiB indirectly: open must accept, and give back m
+            let back = kc::chapoly_decrypt_ietf(&key, &nonce, &ct, aad).map_err(|_| format!("open rejected what seal produced for a message of {} bytes (ciphertext {} bytes, 2^31 = 2147483648)", m.len(), ct.len()))?;
+            ensure!(back.len() == m.len() && back[..4096] == m[..4096] && back[l - 4096..] == m[l - 4096..] && back[l / 2..l / 2 + 4096].iter().all(|&b| b == 0), "open(seal(m)) != m for |m| = {}", m.len());
+            drop(back); let i = ct.len() / 2; ct[i] ^= 1;
+            ensure!(kc::chapoly_decrypt_ietf(&key, &nonce, &ct, aad).is_err(), "open accepted a {}-byte ciphertext with one bit changed", ct.len());
+            ok(true, "aead/huge")
+        }
         Case::KeyObjects { ops } => {
             use zeroize::Zeroize;
             let mut objs: Vec<(kc::PrivateKey, [u8; 32])> = Vec::new(); let mut kinds = std::collections::BTreeSet::new(); let mut derived_then_changed = false; let mut derived: Vec<bool> = Vec::new();
@@ -161,6 +177,7 @@ pub fn run(ctx: &Ctx) {
     ctx.sse("x25519_special_points", "14 small-order spellings + 19 non-canonical + base x 8 clamp-noise patterns", (nlow + 20) * 8, |i| { let j = i / 8; Case::X25519 { k: ctx.seed.wrapping_add(i as u64), u: if j < nlow { UCoord::LowOrder(j) } else if j < nlow + 19 { UCoord::NonCanonical((j - nlow) as u8) } else { UCoord::Base }, clamp_noise: (i % 8) as u8 } }, check);
     ctx.sse("x25519_published_list", "the 12 published encodings x 8 clamp-noise patterns: error exactly when RFC 7748 (bit 255 masked) gives zero", 12 * 8, |i| Case::X25519 { k: ctx.seed.wrapping_add(1000 + i as u64), u: UCoord::Published(i / 8), clamp_noise: (i % 8) as u8 }, check);
     ctx.sse("x25519_special_scalars", "40 extreme scalars (all-zero, all-ones, only clamped bits, single bits) x {base, random, high-bit u}: raw functions and key objects", 40 * 3, |i| Case::SpecialScalar { i: i / 3, u: match i % 3 { 0 => UCoord::Base, 1 => UCoord::Random(i as u64), _ => UCoord::RandomHighBit(i as u64) } }, check);
+    ctx.sse_vec("aead_at_2_to_the_31", "one message of 2^31 - 16 bytes (ciphertext exactly 2^31) and, thorough, 2^31 + 5 bytes: open(seal) = id, one flipped bit refused; skipped with a note when less than 4x that much memory is available", if ctx.quick() { vec![Case::HugeAead { len: (1u64 << 31) - 16 }] } else { vec![Case::HugeAead { len: (1u64 << 31) - 16 }, Case::HugeAead { len: (1u64 << 31) + 5 }, Case::HugeAead { len: (1u64 << 31) - 17 }] }, check);
     ctx.pbt("key_object_histories", ctx.n(20_000, 300_000), || proptest::collection::vec(prop_oneof![3 => any::<u64>().prop_map(KOp::New), 1 => (0usize..40).prop_map(KOp::NewSpecial), 1 => Just(KOp::Generate), 4 => any::<u16>().prop_map(KOp::ToPublic), 2 => any::<u16>().prop_map(KOp::Clone), 2 => any::<u16>().prop_map(KOp::Zeroize), 2 => (any::<u16>(), any::<u16>()).prop_map(|(a, b)| KOp::CloneFrom(a, b)), 2 => (any::<u16>(), any::<u16>()).prop_map(|(a, b)| KOp::Dh(a, b)), 1 => any::<u16>().prop_map(KOp::Forget)], 1..14).prop_map(|ops| Case::KeyObjects { ops }), check);
     ctx.pbt("pbt_primitives", ctx.n(400_000, 4_000_000), || prop_oneof![
         3 => (any::<u64>(), prop_oneof![4 => 0usize..400, 1 => 0usize..70_000], 0usize..80).prop_map(|(seed, mlen, alen)| Case::Aead { seed, mlen, alen, tamper: false }),
